@@ -141,6 +141,25 @@ class VarMap:
     def names(self):
         return [v.name for v in self.vars]
 
+    def herm(self, k):
+        """the decision variable `k` as the textbook program declares it: a complex HERMITIAN matrix.  If the captured
+        variable is only real symmetric (a restriction of the textbook domain), the reference gets its own symbols for the
+        imaginary parts, so that T1 fails and the numeric replay decides whether the restriction changes the optimum."""
+        from symnp.core import cur
+        from symnp.harness import Builder
+        i = k if isinstance(k, int) else [v.name for v in self.vars].index(k)
+        v, m = self.vars[i], np.asarray(self.mats[i], dtype=object)
+        if v.structure in ("symmetric", "psd_s", "real") and m.ndim == 2 and m.shape[0] == m.shape[1] and m.shape[0] > 1:
+            b = Builder(cur())
+            m = m.copy()
+            n = m.shape[0]
+            for a in range(n):
+                for c in range(a + 1, n):
+                    im = b.real(f"href_{v.name}_{a}_{c}")
+                    m[a, c] = m[a, c] + 1j * im
+                    m[c, a] = m[c, a] - 1j * im
+        return m
+
     def like(self, prefix):
         return [m for v, m in zip(self.vars, self.mats) if v.name.startswith(prefix)]
 
